@@ -181,6 +181,26 @@ func (w *Worker) RunPathSeeded(entry *ssa.Function, prefix []Decision, pinned []
 			}
 		}
 		w.callSSA(nil, token.NoPos, entry, nil, nil)
+		// a concrete witness of this path (for the evidence samples): a model of the path condition
+		if w.samplesTaken < 3 && p.pinned == nil && !p.seeded && len(p.nondets) > 0 && len(res.Violations) == 0 {
+			w.samplesTaken++
+			if w.solver.Check() == Sat {
+				if vals, err := w.solver.GetValues(symbolicOnly(nondetTerms(p.nondets))); err == nil {
+					var sb strings.Builder
+					j := 0
+					for _, n := range p.nondets {
+						if n.T.IsConst() {
+							continue
+						}
+						if j < 24 {
+							fmt.Fprintf(&sb, "%s=%s ", n.Name, fmtModelValue(vals[j]))
+						}
+						j++
+					}
+					res.Sample = fmt.Sprintf("inputs{%s} -> decisions=%d asserts=%d discharged=%d covers=%v", strings.TrimSpace(sb.String()), len(p.trace), res.Asserts, res.Discharged, p.coverList())
+				}
+			}
+		}
 	}()
 	return
 }
@@ -328,8 +348,8 @@ func Explore(prog *ssa.Program, hpkg *ssa.Package, cfg *Config, opts ExploreOpts
 						rep.Violations = append(rep.Violations, v)
 					}
 				}
-				if len(rep.Samples) < 5 && res.End == "ok" && len(res.Trace) > 0 {
-					rep.Samples = append(rep.Samples, fmt.Sprintf("path decisions=%d asserts=%d covers=%v", len(res.Trace), res.Asserts, res.Covers))
+				if len(rep.Samples) < 6 && res.Sample != "" {
+					rep.Samples = append(rep.Samples, res.Sample)
 				}
 				queue = append(queue, res.NewWork...)
 				if opts.MaxPaths > 0 && rep.Paths >= opts.MaxPaths {
@@ -470,4 +490,13 @@ func RunJobs(prog *ssa.Program, hpkg *ssa.Package, cfg *Config, jobs []Job) ([]O
 		outs = append(outs, o)
 	}
 	return outs, nil
+}
+
+
+func nondetTerms(ns []NondetRec) []*Term {
+	out := make([]*Term, len(ns))
+	for i, n := range ns {
+		out[i] = n.T
+	}
+	return out
 }
